@@ -225,13 +225,14 @@ def groups (pre post : Str) : Groups :=
   { u := (r1.dropWhile isC).reverse, c1 := region.takeWhile isC, p1 := region.dropWhile isC,
     p2 := post.takeWhile isP2, c2 := r2.takeWhile isC, w := r2.dropWhile isC }
 
-/-- `_remover`.  `fixed`: the equal-parentheses branch tests `c1.strip()` instead of `c1`. -/
+/-- `_remover`.  `fixed`: the equal-parentheses branch tests `c1.strip()` instead of `c1`
+(a `c1` of blanks only is dropped together with `c2`). -/
 def removerOut (fixed : Bool) (g : Groups) : Str :=
   let a := g.p1.count '('
   let b := g.p2.count ')'
   if a > b then g.c1 ++ List.replicate (a - b) '('
   else if b > a then List.replicate (b - a) ')' ++ g.c2
-  else if fixed then (if g.c1.contains ',' then g.c2 else g.c1)
+  else if fixed then (if g.c1.contains ',' then g.c2 else [])
   else (if g.c1.isEmpty then [] else g.c2)
 
 def removeF (fixed : Bool) (pre post : Str) : Str × Str :=
